@@ -355,7 +355,7 @@ func vfLoadEnv() vfEnv {
 		shard:       vfGetenvInt("VF_SHARD", 0),
 		n:           vfGetenvInt("VF_NSHARDS", 1),
 		from:        vfGetenvInt("VF_FROM", 0),
-		watchdogSec: vfGetenvInt("VF_WATCHDOG", 120),
+		watchdogSec: vfGetenvInt("VF_WATCHDOG", 60),
 		race:        vfRaceEnabled,
 	}
 	if e.tier == "" {
